@@ -52,3 +52,36 @@ pub fn all() -> Vec<Prop> {
         Prop { id: "C19", gens: c19::gens, run: c19::run, rule: c19::RULE, assumptions: c19::ASSUMPTIONS },
     ]
 }
+
+/// Generators exposed to the coverage-guided `choice` fuzz target (and to `ctv fuzz-artifact`,
+/// which turns a libFuzzer artifact of that target back into an ordinary replay file).
+pub fn fuzz_gens() -> Vec<Gen> {
+    [
+        c01::gens(),
+        c04::gens(),
+        c05::gens(),
+        c06::gens(),
+        c12::gens(),
+        c13::gens(),
+        c14::gens(),
+        c02::gens(),
+        c15::gens(),
+        c07::gens(),
+    ]
+    .concat()
+    .into_iter()
+    .filter(|g| {
+        !g.name.ends_with("concrete")
+            && g.name != "c04_short"
+            && g.name != "c13_name"
+            && g.name != "c13_icon"
+            && g.name != "c14_params"
+            && g.name != "c14_formats"
+    })
+    .collect()
+}
+
+/// property id a generator belongs to ("c04_mutate" -> "C04")
+pub fn prop_of_gen(name: &str) -> String {
+    name.split('_').next().unwrap_or("").to_uppercase()
+}
